@@ -529,6 +529,141 @@ pub fn gen_softdeep(r: &mut Rng, feat: u32) -> (Universe, Prob) {
     (u, Prob { reqs: root, cons: vec![], soft })
 }
 
+/// Template behind `softrej`: a soft requirement X whose run fails only after it made G true
+/// (G requires D, which has >= 2 candidates, so the watches of that clause move onto candidates of D);
+/// then candidates of D named directly as soft requirements, each rejected at its first encode
+/// (Unknown dependencies / excluded); finally G itself.
+fn gen_softrej_template(r: &mut Rng, feat: u32) -> (Universe, Prob) {
+    let mut u = Universe::default();
+    let mut add_pkg = |u: &mut Universe, n: u32| -> (u32, Vec<u32>) {
+        let name = u.pkgs.len() as u32;
+        let mut p = Pkg::default();
+        for i in 0..n {
+            let id = u.sols.len() as u32;
+            u.sols.push(Sol { name, rank: i, deps: Some(Known { reqs: vec![], cons: vec![] }) });
+            p.cands.push(id);
+        }
+        let c = p.cands.clone();
+        u.pkgs.push(p);
+        (name, c)
+    };
+    let add_vs = |u: &mut Universe, name: u32, m: Vec<u32>| -> u32 {
+        u.vss.push(Vs { name, matching: m });
+        u.vss.len() as u32 - 1
+    };
+    let (rn, rc) = add_pkg(&mut u, 1);
+    let vs_r = add_vs(&mut u, rn, rc.clone());
+    let vs_r_none = add_vs(&mut u, rn, vec![]);
+    let (dn, dc) = add_pkg(&mut u, r.range(2, 4) as u32);
+    for &d in &dc {
+        if feat & F_UNKNOWN != 0 && !r.chance(1, 5) {
+            u.sols[d as usize].deps = None;
+        } else {
+            u.pkgs[dn as usize].excluded.push(d);
+        }
+    }
+    let nsub = r.range(2, dc.len() as u64) as usize;
+    let vs_d = add_vs(&mut u, dn, dc[..nsub].to_vec());
+    let (gn, gc) = add_pkg(&mut u, 1);
+    let vs_g = add_vs(&mut u, gn, gc.clone());
+    u.sols[gc[0] as usize].deps = Some(Known { reqs: vec![Req::Single(vs_d)], cons: vec![] });
+    if feat & F_HINTS != 0 && r.chance(1, 3) {
+        u.pkgs[gn as usize].hint = Hint::All;
+    }
+    let (wn, wc) = add_pkg(&mut u, 1);
+    let vs_w = add_vs(&mut u, wn, wc.clone());
+    u.sols[wc[0] as usize].deps = Some(Known { reqs: vec![], cons: vec![vs_r_none] });
+    let (_xn, xc) = add_pkg(&mut u, 1);
+    let mut xreqs = vec![Req::Single(vs_w), Req::Single(vs_g)];
+    r.shuffle(&mut xreqs);
+    u.sols[xc[0] as usize].deps = Some(Known { reqs: xreqs, cons: vec![] });
+    // sometimes D's candidates depend back on G's package (a cycle through the soft requirements)
+    if r.chance(1, 3) {
+        let last = *dc.last().unwrap();
+        if u.sols[last as usize].deps.is_some() {
+            u.sols[last as usize].deps = Some(Known { reqs: vec![Req::Single(vs_g)], cons: vec![] });
+        }
+    }
+    let mut soft = vec![xc[0]];
+    let mut ds = dc.clone();
+    r.shuffle(&mut ds);
+    for d in ds {
+        if !r.chance(1, 6) {
+            soft.push(d);
+        }
+    }
+    if r.chance(1, 4) {
+        soft.push(wc[0]);
+    }
+    soft.push(gc[0]);
+    let reqs = if r.chance(4, 5) { vec![Req::Single(vs_r)] } else { vec![] };
+    (u, Prob { reqs, cons: vec![], soft })
+}
+
+/// Long soft-requirement lists in which several consecutive entries are rejected early (Unknown
+/// dependencies, exclusions, requirements without candidates), over small cyclic universes: exercises
+/// the bookkeeping between successive run_sat invocations (decisions assigned false but not yet
+/// propagated when the next soft requirement is tried).
+pub fn gen_softrej(r: &mut Rng, feat: u32) -> (Universe, Prob) {
+    if r.chance(1, 2) {
+        return gen_softrej_template(r, feat);
+    }
+    let n_names = r.range(3, 6) as u32;
+    let mut u = Universe::default();
+    for n in 0..n_names {
+        let k = r.range(1, 3) as u32;
+        let mut p = Pkg::default();
+        for i in 0..k {
+            let id = u.sols.len() as u32;
+            u.sols.push(Sol { name: n, rank: i, deps: Some(Known { reqs: vec![], cons: vec![] }) });
+            p.cands.push(id);
+        }
+        if feat & F_EXCLUDED != 0 && r.chance(1, 8) {
+            p.excluded.push(p.cands[r.below(k as u64) as usize]);
+        }
+        if feat & F_HINTS != 0 && r.chance(1, 4) {
+            p.hint = Hint::All;
+        }
+        u.pkgs.push(p);
+    }
+    // version sets: 2n = all candidates, 2n+1 = a random subset (possibly empty)
+    for n in 0..n_names {
+        let cands = u.pkgs[n as usize].cands.clone();
+        u.vss.push(Vs { name: n, matching: cands.clone() });
+        u.vss.push(Vs { name: n, matching: cands.iter().copied().filter(|_| r.chance(1, 2)).collect() });
+    }
+    for s in 0..u.sols.len() {
+        if feat & F_UNKNOWN != 0 && r.chance(1, 3) {
+            u.sols[s].deps = None;
+            continue;
+        }
+        let me = u.sols[s].name;
+        let mut reqs = vec![];
+        for _ in 0..r.below(3) {
+            let mut n = r.below(n_names as u64) as u32;
+            if n == me && r.chance(2, 3) {
+                n = (n + 1) % n_names;
+            }
+            reqs.push(Req::Single(2 * n + if r.chance(1, 5) { 1 } else { 0 }));
+        }
+        let mut cons = vec![];
+        if feat & F_CONSTRAINS != 0 && r.chance(1, 5) {
+            let n = r.below(n_names as u64) as u32;
+            cons.push(2 * n + 1);
+        }
+        u.sols[s].deps = Some(Known { reqs, cons });
+    }
+    let mut reqs = vec![];
+    if r.chance(1, 2) {
+        reqs.push(Req::Single(2 * r.below(n_names as u64) as u32));
+    }
+    let mut soft = vec![];
+    for _ in 0..r.range(3, 6) {
+        soft.push(r.below(u.sols.len() as u64) as u32);
+    }
+    (u, Prob { reqs, cons: vec![], soft })
+}
+
 pub fn gen_case(id: u64, seed: u64, class: &str, feat: u32) -> Case {
     let mut r = Rng::new(seed.wrapping_mul(0x100000001B3).wrapping_add(id));
     let (u, p) = match class {
@@ -539,6 +674,7 @@ pub fn gen_case(id: u64, seed: u64, class: &str, feat: u32) -> Case {
         "conflictx" => gen_conflict_with(&mut r, feat, true),
         "fanout" => gen_fanout(&mut r, feat),
         "softdeep" => gen_softdeep(&mut r, feat),
+        "softrej" => gen_softrej(&mut r, feat),
         // for this class `feat` is the largest candidate count; sizes cycle 1..=feat
         "amo" => gen_amo(&mut r, 1 + (id % feat.max(1) as u64) as u32),
         other => panic!("unknown class {other}"),
